@@ -19,7 +19,8 @@ TECHNIQUE = "sibling-fact comparison of the residual formulations (block structu
 CLAIM = ("Decides: both formulations return equilibrium block + conservation block, conservation against B*initial concentrations (first ns "
          "parameters) with the preservation rref flag; Lin residual is Q/K - 1 (Q when K is 0), Log residual is A*y - ln K; rref takes log before "
          "and exp after; each variable-transform subclass applies in f the same map as its post_processor; pre_processor is the inverse of "
-         "post_processor; the product/dot helpers are the stated reductions.")
+         "post_processor; the product/dot helpers are the stated reductions."
+         ' Helper start values, defaults of the constant accessors, processors wired iff defined, option forwarding (R4). Shared rule A1: no swapped same-named arguments at resolved in-package call sites.')
 DOES_NOT_DECIDE = "that residuals are non-zero off equilibrium; pyneqsys linear_exprs/linear_rref internals; numpy broadcasting"
 ASSUMPTIONS = ["pyneqsys.symbolic.linear_exprs(A, x, b, rref) returns A x - b (row-reduced when rref)", "concentrations are non-negative (sqrt(abs(x))**2 == x) and `small` is negligible"]
 F1 = Fraction(1)
